@@ -210,6 +210,8 @@ def guarded(ctx, name, claim, bounds, profile, body, replay=None):
     except (Unsupported, X.Bound) as e:
         ob.status = "inconclusive"
         ob.reason = "encoding stopped: %s: %s" % (type(e).__name__, e)
+        if os.environ.get("E2_TRACE"):
+            traceback.print_exc()
     except Exception as e:
         ob.status = "inconclusive"
         ob.reason = "internal error: " + traceback.format_exc()[-600:]
@@ -1465,7 +1467,128 @@ def _rep_commitment(ctx, v):
     return None if got == want else {"n": n, "native": a, "expected": want}
 
 
-PROPS = {"C29": c29, "C33": c33, "C34": c34, "C31": c31, "C32": c32}
+# =========================================================================== C25
+
+def same_value(a, b):
+    """z3 condition that two executor values are equal; None if their shapes differ"""
+    from .mirmodels import Container
+    if isinstance(a, X.Ref):
+        a = a.get()
+    if isinstance(b, X.Ref):
+        b = b.get()
+    if isinstance(a, Enum) and isinstance(b, Enum):
+        if a.variant != b.variant or len(a.fields) != len(b.fields):
+            return None
+        cs = [same_value(x, y) for x, y in zip(a.fields, b.fields)]
+        return None if any(c is None for c in cs) else z3.And(*cs) if cs else z3.BoolVal(True)
+    if isinstance(a, list) and isinstance(b, list):
+        if len(a) != len(b):
+            return None
+        cs = [same_value(x, y) for x, y in zip(a, b)]
+        return None if any(c is None for c in cs) else z3.And(*cs) if cs else z3.BoolVal(True)
+    if isinstance(a, (Enum, list)) or isinstance(b, (Enum, list)):
+        return None
+    if isinstance(a, bool) or isinstance(b, bool) or (X.is_sym(a) and z3.is_bool(a)) or (X.is_sym(b) and z3.is_bool(b)):
+        return X.zbool(a) == X.zbool(b)
+    return X.zint(a) == X.zint(b)
+
+
+def c25(ctx):
+    from .mirmodels import Container
+    MAXI = 10
+
+    def make_body(N, M):
+        def body(ob):
+            exq = ob.ex()
+            ints = [z3.Int("i%d" % k) for k in range(N)]
+            ob.vars = {"i%d" % k: v for k, v in enumerate(ints)}
+            pre = [z3.And(v >= 0, v <= U128) for v in ints]
+            exq.overrides = {
+                "Runestone::payload": lambda ex, st, args: Enum("Option", 1, [Enum("runestone::Payload", 0, [Container("vec", [])])]),
+                "Runestone::integers": lambda ex, st, args: Enum("Result", 0, [Container("vec", list(ints))]),
+            }
+            try:
+                tx = Struct([2, 0, Container("vec", []), Container("vec", [X.Opaque("txout") for _ in range(M)])])
+                st = X.State(); st.pc = list(pre)
+                res = exq.run("runestone::_::decipher", [X.Ref([tx])], st)
+                ob.paths += len(res)
+                for r in res:
+                    if r.kind != "return":
+                        ob.reach(r.pc, "decipher panics: " + r.msg)
+                        continue
+                    if r.value.variant != 1:
+                        ob.reach(r.pc, "decipher yields nothing although the payload is present")
+                        continue
+                    art = r.value.fields[0]
+                    # reference, executed from its own MIR on the same integers
+                    arr = Struct(list(ints) + [0] * (MAXI - N))
+                    st2 = X.State(); st2.pc = list(r.pc)
+                    exq.overrides = {}
+                    rm = exq.run("ref_message", [X.Ref([Struct([N, arr])]), M], st2)
+                    for r2 in rm:
+                        ob.paths += 1
+                        if r2.kind != "return":
+                            raise Unsupported("reference ref_message did not return: %s" % r2.msg)
+                        st3 = X.State(); st3.pc = list(r2.pc)
+                        for r3 in exq.run("ref_runestone", [r2.value, M], st3):
+                            ob.paths += 1
+                            if r3.kind != "return":
+                                raise Unsupported("reference ref_runestone did not return: %s" % r3.msg)
+                            want = r3.value      # RefOut { flaw, ne, edicts, etching, mint, pointer }
+                            w_flaw, w_ne, w_edicts, w_etching, w_mint, w_pointer = want
+                            if art.variant == 0:      # Cenotaph { etching: Option<Rune>, flaw, mint }
+                                c = art.fields[0]
+                                c_etching, c_flaw, c_mint = c[0], c[1], c[2]
+                                if w_etching.variant == 1:
+                                    w_rune = w_etching.fields[0][2]     # Etching.rune
+                                else:
+                                    w_rune = Enum("Option", 0, [])
+                                conds = [same_value(c_flaw, w_flaw), same_value(c_mint, w_mint), same_value(c_etching, w_rune)]
+                                ok = w_flaw.variant == 1 and all(x is not None for x in conds)
+                                ob.query(r3.pc, z3.And(*conds) if ok else False, ob.vars, "cenotaph (flaw/mint/etched name) differs from the specification")
+                            else:                      # Runestone { edicts, etching, mint, pointer }
+                                rs = art.fields[0]
+                                edicts = list(rs[0])
+                                ne = w_ne if X.is_conc(w_ne) else None
+                                conds = [same_value(rs[1], w_etching), same_value(rs[2], w_mint), same_value(rs[3], w_pointer)]
+                                if ne is None or ne != len(edicts):
+                                    conds.append(None)
+                                else:
+                                    conds += [same_value(edicts[k], w_edicts[k]) for k in range(ne)]
+                                ok = w_flaw.variant == 0 and all(x is not None for x in conds)
+                                ob.query(r3.pc, z3.And(*conds) if ok else False, ob.vars, "runestone (edicts/etching/mint/pointer) differs from the specification")
+            finally:
+                exq.overrides = {}
+        return body
+
+    sizes = [(0, 2), (1, 2), (2, 2), (3, 2), (4, 2)] if ctx.tier == "quick" else [(n, 2) for n in range(0, 7)] + [(5, 1), (6, 3)]
+    if os.environ.get("E2_C25_SIZES"):
+        sizes = [tuple(int(x) for x in p.split("x")) for p in os.environ["E2_C25_SIZES"].split(",")]
+    for N, M in sizes:
+        guarded(ctx, "c25_decipher_vs_spec_n%d_m%d" % (N, M),
+                "for every sequence of %d integers (any u128 values) in a transaction with %d outputs, Runestone::decipher (message parsing + field decoding) yields exactly the runestone or the cenotaph with the first flaw that the specification reference yields" % (N, M),
+                "payload extraction and LEB128 decoding are replaced by 'the integer sequence is i0..i%d' (decided separately by the Kani stage harnesses and C26); reference = harness/ordinals/runestone_h.rs ref_message/ref_runestone, written from docs/src/runes/specification.md and executed from its own MIR" % (N - 1),
+                "dev", make_body(N, M), lambda v, N=N, M=M: _rep_decipher(ctx, v, N, M))
+
+
+def _rep_decipher(ctx, v, N, M):
+    from . import kani as K
+    crate = K.gen_ordinals()
+    ints = [str(v.get("i%d" % k, 0)) for k in range(N)]
+    env = C.env({"RUSTFLAGS": "--cfg vreplay", "VREPLAY_INTS": " ".join([str(M)] + ints),
+                 "CARGO_TARGET_DIR": os.path.join(C.BUILD, "t-ordk-replay")})
+    p = subprocess.run(["cargo", "test", "--offline", "--lib", "vreplay_decipher", "--", "--nocapture"], cwd=crate, env=env,
+                       stdout=subprocess.PIPE, stderr=subprocess.STDOUT, universal_newlines=True, timeout=1800)
+    out = p.stdout
+    if "running 1 test" not in out:
+        raise RuntimeError("replay test did not run: " + out[-600:])
+    if "test result: FAILED" in out:
+        m = re.search(r"decipher -> (.*)", out)
+        return {"outputs": M, "integers": ints, "real_decipher": m.group(1)[:400] if m else "?", "note": "disagrees with the specification reference"}
+    return None
+
+
+PROPS = {"C29": c29, "C33": c33, "C34": c34, "C31": c31, "C32": c32, "C25": c25}
 
 
 def main():
